@@ -18,7 +18,7 @@
 //
 //	        boundary <hex extractor> <hex fixture> <hex name shape>  ->  hit=<a name of the fixture was substituted> pk= purls= issues= bad= drop=
 //	        layout <hex os-release variant>                   ->  pk= purls= byex=<extractor:count,…> types=<purl types> issues= bad=
-//	        accept <e|c> <hextype> <hex origin>               ->  acc=<0|1 "pkg:<type>/ns/name@1.0" parses> accs=<0|1 String() of a built PackageURL parses> idem=<0|1> why=<-|type|parse>
+//	        accept <e|c|n> <hextype> <hex origin>              ->  acc=<0|1 "pkg:<type>/ns/name@1.0" parses> accs=<0|1 String() of a built PackageURL parses> idem=<0|1> why=<-|type|parse>
 //
 //		index <pkgs>       pkgs := '-' | pkg (',' pkg)*   pkg := 'x' | <hextype> ':' <hexname>
 //		                                                 ->  obs=<A=ids;T<type>=ids;S<type>:<name>=ids>
@@ -393,10 +393,26 @@ func convert(e filesystem.Extractor, pkgs []*extractor.Package, tag string, is i
 				is.add("%scdx-panic", tag)
 			}
 		}()
-		bom := converter.ToCDX(res, converter.CDXConfig{})
+		cfg := converter.CDXConfig{}
+		if tag != "" { // the document-level fields of the config: named component, authors in order
+			cfg = converter.CDXConfig{ComponentName: "comp n", ComponentVersion: "1~2", Authors: []string{"b author", "a <x@y>"}}
+		}
+		bom := converter.ToCDX(res, cfg)
 		if bom.Components == nil || len(*bom.Components) != len(pkgs) {
 			is.add("%scdx-count", tag)
 			return
+		}
+		if bom.Metadata == nil || bom.Metadata.Component == nil || bom.Metadata.Component.Name != cfg.ComponentName || bom.Metadata.Component.Version != cfg.ComponentVersion {
+			is.add("%scdx-component", tag)
+		}
+		var authors []string
+		if bom.Metadata != nil && bom.Metadata.Authors != nil {
+			for _, a := range *bom.Metadata.Authors {
+				authors = append(authors, a.Name)
+			}
+		}
+		if !eqStrs(authors, cfg.Authors) {
+			is.add("%scdx-authors", tag)
 		}
 		for i, pk := range pkgs {
 			c := (*bom.Components)[i]
@@ -932,7 +948,6 @@ func main() {
 	for _, f := range fx {
 		byKey[f.ex.Name()+"\x00"+f.rel] = f
 	}
-	_ = exs
 	initMeta()
 	if o.Replay != "" {
 		// metadata types that only occur in the harvest get their sample from a silent pre-pass
@@ -970,6 +985,38 @@ func main() {
 				out.Emit(l, runBoundary(f, hx.UnHex(t[3])))
 			case "accept":
 				out.Emit(l, runAccept(hx.UnHex(t[2])))
+			case "result":
+				out.Emit(l, runResult(t[1:]))
+			case "pfile":
+				if len(t) != 2 {
+					out.Emit(l, "bad-op")
+					continue
+				}
+				out.Emit(l, runPfile(scratch, hx.UnHex(t[1])))
+			case "pwerr":
+				if len(t) != 2 {
+					out.Emit(l, "bad-op")
+					continue
+				}
+				out.Emit(l, runPwerr(scratch, t[1]))
+			case "reach":
+				if len(t) != 2 {
+					out.Emit(l, "bad-op")
+					continue
+				}
+				out.Emit(l, runReach(exs, t[1]))
+			case "wfmt":
+				if len(t) != 2 {
+					out.Emit(l, "bad-op")
+					continue
+				}
+				out.Emit(l, runWfmt(scratch, hx.UnHex(t[1])))
+			case "fname":
+				if len(t) != 3 {
+					out.Emit(l, "bad-op")
+					continue
+				}
+				out.Emit(l, runFname(scratch, exs, t[1], hx.UnHex(t[2])))
 			default:
 				out.Emit(l, "bad-op")
 			}
@@ -998,6 +1045,10 @@ func main() {
 				}
 			}
 		}
+	}
+	// negative probes: a type that is not declared must be REJECTED by purl.FromString (the type is lower-cased by the parser first)
+	for _, typ := range []string{"nosuch", "debx", "de", "x", "maven2", "DEB", "Deb", "pkg", "g0lang"} {
+		out.Emit("accept n "+hx.Hex(typ)+" "+hx.Hex("negative probe"), runAccept(typ))
 	}
 	for _, v := range osReleases {
 		l := "layout " + hx.Hex(v.name)
@@ -1031,6 +1082,16 @@ func main() {
 			out.Emit(l, runBoundary(f, sh))
 		}
 	}
+	// completeness of the harvest's extractor set against the public selection API
+	for _, k := range reachKinds {
+		out.Emit("reach "+k, runReach(exs, k))
+	}
+	// identities derived from file / directory names (jar file names, nix store directories, homebrew cellar directories)
+	for _, k := range fnameKinds {
+		for _, c := range fnameCases[k] {
+			out.Emit("fname "+k+" "+hx.Hex(c), runFname(scratch, exs, k, c))
+		}
+	}
 	seen := map[string]bool{}
 	for _, c := range protoCases {
 		if l := c.line(); !seen[l] {
@@ -1052,8 +1113,27 @@ func main() {
 			out.Emit(l, runProto(parseProto(l)))
 		}
 	}
+	// the rest of the result proto: statuses, findings, file names
+	for _, l := range fixedResults() {
+		out.Emit(l, runResult(strings.Split(l, " ")[1:]))
+	}
+	for _, n := range pfileNames {
+		out.Emit("pfile "+hx.Hex(n), runPfile(scratch, n))
+	}
+	for _, f := range wfmtFormats {
+		out.Emit("wfmt "+hx.Hex(f), runWfmt(scratch, f))
+	}
+	for _, v := range pwerrVariants {
+		out.Emit("pwerr "+v, runPwerr(scratch, v))
+	}
 	r := hx.Rng(o)
+	rg := resGen{r: r}
 	for i := 0; i < o.N; i++ {
+		if i%6 == 5 {
+			l := rg.result()
+			out.Emit(l, runResult(strings.Split(l, " ")[1:]))
+			continue
+		}
 		if i%3 == 2 {
 			l := randProto(r).line()
 			out.Emit(l, runProto(parseProto(l)))
